@@ -8,6 +8,7 @@ import (
 	"go/constant"
 	"go/token"
 	"go/types"
+	"regexp"
 	"strings"
 
 	"golang.org/x/tools/go/packages"
@@ -46,6 +47,7 @@ func checkC10(ctx *Ctx, r *Report) {
 	c12CueNestedEmptyCollections(ctx, r)
 	c10FourthHunt(ctx, r)
 	c10FifthHunt(ctx, r)
+	c10SixthHunt(ctx, r)
 }
 
 func c10DefaultCarried(ctx *Ctx, r *Report) map[*types.Func]bool {
@@ -2111,4 +2113,30 @@ func c10FifthHunt(ctx *Ctx, r *Report) {
 	}
 	r.Count("hunted clauses of the defaults (5th hunt)", n)
 	r.Floor("hunted clauses of the defaults (5th hunt)", 3)
+}
+
+// c10SixthHunt — a lead followed while repairing C16 (Java literals): java.formatType, which writes the defaults of
+// scalar fields, gives floats a fixed number of decimals — the default the generated class sets is not the one the
+// schema gives. (finding: a golden file holds the rounded value.)
+func c10SixthHunt(ctx *Ctx, r *Report) {
+	fn := ctx.LookupFunc("internal/jennies/java", "formatType")
+	fd, p := ctx.DeclOf(fn)
+	if fd == nil {
+		r.Undecided("anchor lost: java.formatType")
+		return
+	}
+	info := p.TypesInfo
+	fixed := regexp.MustCompile(`%\.[0-9]+f`)
+	var rounded []string
+	ast.Inspect(fd.Body, func(m ast.Node) bool {
+		if e, ok := m.(ast.Expr); ok {
+			if tv, ok := info.Types[e]; ok && tv.Value != nil && tv.Value.Kind() == constant.String && fixed.MatchString(constant.StringVal(tv.Value)) {
+				rounded = append(rounded, constant.StringVal(tv.Value))
+			}
+		}
+		return true
+	})
+	r.Count("hunted clauses of the default rules (6th hunt)", 1)
+	r.Check(len(rounded) == 0, "kinds/java-float-literals-exact", "java.formatType writes a float default", fd.Pos(), "with every digit of the value",
+		fmt.Sprintf("java.formatType writes floats with a fixed number of decimals (%v): `ratio: float64 | *2.75` gives `this.ratio = 2.8;`, `small: float32 | *0.125` gives `this.small = 0.1f;` — the object built with no option set does not hold the default of the schema", rounded))
 }
